@@ -2743,11 +2743,13 @@ def check_C04(ctx):
     ctx.guard("E.validated-rank", rank_wiring, ctx, "E.validated-rank", ((FIVE, 5), (SIX, 6), (SEVEN, 7)), (("hand_rank_validated", "hand_rank_value_validated"),))
     # never panics: the invalid edge returns the constant 0 (gate) and validity itself has no reachable panic site
     def nopanic():
+        # (the card filter's and are_unique's own sites are decided by V.filter / V.are_unique — exactly those functions)
+        uniq_keys = {ctx.method(p_, "are_unique", HV)[0] for p_, _n in CONTAINERS}
         for path, n in ((FIVE, 5), (SIX, 6), (SEVEN, 7)):
             key, sty = ctx.method(path, "is_valid", HV)
             sm = ctx.summ(key, [("r", ctx.hand(path, n))], sty)
             for o in sm.obligations:
-                if o.fn.endswith("::filter") or "are_unique" in o.fn:
+                if o.fn.endswith("::filter") or o.fn in uniq_keys:
                     continue
                 okk = o.cond[0] == "c" and bool(o.cond[1])
                 if not okk and o.cond[0] != "c":
@@ -2928,8 +2930,8 @@ def check_C05(ctx):
                 sm_op = ctx.summ(key, [("r", ctx.hand(path, n))], sty, opaque={k_and, k_valid_, kfrom_})
                 inside = [o for o in sm_in.obligations if k_valid_ in o.stack or o.fn == k_valid_]
                 for o in inside + list(sm_op.obligations):
-                    if "are_unique" in o.fn:
-                        continue
+                    if o.fn in {ctx.method(p_, "are_unique", HV)[0] for p_, _n in CONTAINERS}:
+                        continue        # decided by C05.are_unique (premise_unique), exactly these functions
                     okk = o.cond[0] == "c" and bool(o.cond[1])
                     if not okk:
                         from .base import decide_site
@@ -3035,6 +3037,7 @@ def check_C08(ctx):
         rep.uncertified("C08.card-shift", "no impl Shifty for u32")
         return
     kshift = im["items"]["shift_suit"]
+    ctx.check_shadow("u32", "shift_suit", "Shifty", kshift, None)
 
     def card():
         w = atom("w", "u32")
